@@ -685,6 +685,7 @@ func C20(c *vk.Ctx) {
 	walks += c20Locations(c, rng)
 	walks += c20Lifecycle(c)
 	walks += c20FailedSwapLeftover(c)
+	walks += midSwapFault(c, "movedIn")
 	c.Set("states", states)
 	c.Set("transitions", trans)
 	c.Set("traces_validated_against_impl", int64(walks))
